@@ -109,7 +109,7 @@ static SuperMatrix L, U; static int haveLU = 0;
 static int_t *perm_c = 0, *perm_r = 0; static int_t pn = 0;
 static superlumt_options_t opts; static int opts_live = 0; /* etree/colcnt/part allocated */
 static real_t *Rv = 0, *Cv = 0; static equed_t equed = NOEQUIL;
-static void *userwork = 0; static long userwork_len = 0;
+static void *userwork = 0; static long userwork_len = 0; static long userwork_alloc = 0; /* bytes allocated for the last caller buffer (kept after the call: 'stale' buffer) */
 #define REDZ 4096
 
 static void pr_ints(const char *k, const int_t *a, long n) { fprintf(out, "%s %ld", k, n); for (long i = 0; i < n; i++) fprintf(out, " %ld", (long)a[i]); fputc('\n', out); }
@@ -278,9 +278,12 @@ int main(int argc, char **argv) {
             opts.nprocs = nprocs; opts.fact = fact; opts.trans = trans; opts.refact = refact; opts.panel_size = panel; opts.relax = relax;
             opts.diag_pivot_thresh = u; opts.usepr = usepr; opts.drop_tol = 0.0; opts.SymmetricMode = symm; opts.PrintStat = NO;
             opts.perm_c = perm_c; opts.perm_r = perm_r;
-            if (lwork > 0) { if (refact == NO && fact != FACTORED) { free(userwork); userwork = malloc(lwork + 2 * REDZ); memset(userwork, 0xA5, lwork + 2 * REDZ); userwork_len = lwork; }
+            if (lwork > 0) { if (refact == NO && fact != FACTORED) { free(userwork); userwork = malloc(lwork + 2 * REDZ); memset(userwork, 0xA5, lwork + 2 * REDZ); userwork_len = lwork; userwork_alloc = lwork + 2 * REDZ; }
                 opts.work = (char *)userwork + REDZ; opts.lwork = lwork; }
             else { opts.work = 0; opts.lwork = lwork; if (refact == NO && fact != FACTORED) userwork_len = 0; }
+            /* a call without caller workspace after one with: the caller has taken its old buffer back and filled it with its own data */
+            int stale_watch = (lwork == 0 && refact == NO && fact != FACTORED && userwork && userwork_alloc > 0);
+            if (stale_watch) memset(userwork, 0x5A, userwork_alloc);
             if (!opts_live && fact != FACTORED) { opts.etree = intMalloc(n + 1); opts.colcnt_h = intMalloc(n + 1); opts.part_super_h = intMalloc(n + 1); opts_live = 1; }
             /* X */
             long tot = (long)b->ld * (b->nrhs > 0 ? b->nrhs : 0) + 1; elem_t *xv = malloc(sizeof(elem_t) * tot);
@@ -309,6 +312,13 @@ int main(int argc, char **argv) {
             pr_reals("ferr", ferr, b->nrhs > 0 ? b->nrhs : 0); pr_reals("berr", berr, b->nrhs > 0 ? b->nrhs : 0);
             fprintf(out, "mem %a %a %ld\n", (double)mu.for_lu, (double)mu.total_needed, (long)mu.expansions);
             pr_ints("perm_r", perm_r, n); pr_ints("perm_c", perm_c, n);
+            if (stale_watch) {
+                unsigned char *w = userwork; long touched = 0; for (long i = 0; i < userwork_alloc; i++) if (w[i] != 0x5A) touched++;
+                fprintf(out, "stale_touched %ld\n", touched);
+                if (haveLU && info >= 0 && info <= n + 1) { SCPformat *Ls = L.Store; NCPformat *Us = U.Store; char *lo = (char *)userwork, *hi = lo + userwork_alloc;
+                    int in = (((char *)Ls->nzval >= lo && (char *)Ls->nzval < hi) || ((char *)Ls->rowind >= lo && (char *)Ls->rowind < hi) ||
+                              ((char *)Us->nzval >= lo && (char *)Us->nzval < hi) || ((char *)Us->rowind >= lo && (char *)Us->rowind < hi));
+                    fprintf(out, "stale_inside %d\n", in); } }
             if (lwork > 0 && userwork) { /* red zones */
                 unsigned char *w = userwork; int ok = 1; for (int i = 0; i < REDZ; i++) if (w[i] != 0xA5 || w[REDZ + lwork + i] != 0xA5) ok = 0;
                 fprintf(out, "redzone %d\n", ok);
